@@ -88,6 +88,12 @@ func compareModel(c *Ctx, p *m.Program, opt compareOpts) (*m.Result, *sb.Resp, *
 		req.Safe = true
 		c.Ev.Label("via-ExecuteSafe", 1)
 	}
+	// one memory-loader case in six is served by a user-written Loader whose
+	// readers use the latitude of the io.Reader contract
+	if req.Loader == "memory" && hashStr(key)%6 == 2 {
+		req.Loader = []string{"rd:dataeof", "rd:onebyte", "rd:chunk7", "rd:zero-reads"}[hashStr(key)/6%4]
+		c.Ev.Label("loader:"+req.Loader, 1)
+	}
 	r := c.SB.Do(req)
 	if r.Fatal() || r.Status == "infra" {
 		return res, r, fatalFail(r)
